@@ -872,7 +872,7 @@ func (c1 floatConst) representedBy(typ reflect.Type) (constant, error) {
 		return nil, fmt.Errorf("constant %s truncated to integer", c1)
 	}
 	if reflect.Uint <= kind && kind <= reflect.Uintptr {
-		if n, acc := c1.f.Uint64(); acc == big.Exact {
+		if n, acc := c1.f.Uint64(); acc == big.Exact && c1.f.IsInt() {
 			if n <= maxInt64 {
 				return int64Const(n).representedBy(typ)
 			}
